@@ -15,45 +15,45 @@ Trace == ndJsonDeserialize(IOEnv.TRACE_FILE)
 VARIABLES l, cfg, tbl, cur, got, dead
 vars == <<l, cfg, tbl, cur, got, dead>>
 
-TKey(t) == [i \in 1..Len(cfg.on) |-> KeyOf(Col(t, cfg.on[i][2]))]
-SKey(r) == [i \in 1..Len(cfg.on) |-> KeyOf(Col(r, cfg.on[i][1]))]
+\* cfg.joins = <<[name, kind, on, tcols]>> in SQL order; tbl = one table (sequence of rows) per join
+TKey(j, t) == [i \in 1..Len(cfg.joins[j].on) |-> KeyOf(Col(t, cfg.joins[j].on[i][2]))]
+SKey(j, r) == [i \in 1..Len(cfg.joins[j].on) |-> KeyOf(Col(r, cfg.joins[j].on[i][1]))]
 HasNullKey(k) == \E i \in 1..Len(k) : k[i] = <<"null">>
-UpsertIn(t, row) == LET hits == {i \in 1..Len(t) : TKey(t[i]) = TKey(row)} IN
-                    IF hits = {} THEN Append(t, row) ELSE [t EXCEPT ![CHOOSE i \in hits : TRUE] = row]
-Upsert(row) == UpsertIn(tbl, row)
+JoinOf(name) == CHOOSE j \in 1..Len(cfg.joins) : cfg.joins[j].name = name
+UpsertIn(j, t, row) == LET hits == {i \in 1..Len(t) : TKey(j, t[i]) = TKey(j, row)} IN
+                       IF hits = {} THEN Append(t, row) ELSE [t EXCEPT ![CHOOSE i \in hits : TRUE] = row]
 \* registering rows = upserting them one after the other (a later row with an equal key replaces the earlier)
-RECURSIVE Load(_, _)
-Load(t, rs) == IF rs = <<>> THEN t ELSE Load(UpsertIn(t, Head(rs)), Tail(rs))
-Delete(key) == SelectSeq(tbl, LAMBDA t : TKey(t) # [i \in 1..Len(key) |-> KeyOf(key[i])])
-Matches(r) == {i \in 1..Len(tbl) : TKey(tbl[i]) = SKey(r)}
+RECURSIVE Load(_, _, _)
+Load(j, t, rs) == IF rs = <<>> THEN t ELSE Load(j, UpsertIn(j, t, Head(rs)), Tail(rs))
+DeleteIn(j, t, key) == SelectSeq(t, LAMBDA x : TKey(j, x) # [i \in 1..Len(key) |-> KeyOf(key[i])])
+Matches(j, r) == {i \in 1..Len(tbl[j]) : TKey(j, tbl[j][i]) = SKey(j, r)}
+NoRow == [x \in {} |-> Null]
+\* the table row joined by join j (NoRow when none)
+Joined(j, r) == LET m == Matches(j, r) IN IF m = {} THEN NoRow ELSE tbl[j][CHOOSE i \in m : TRUE]
 
 Cmp(op, a, b) == CASE op = ">" -> a > b [] op = ">=" -> a >= b [] op = "<" -> a < b [] op = "<=" -> a <= b [] op = "=" -> a = b
-WherePass(t) == "where" \notin DOMAIN cfg \/
-                (LET x == Col(t, cfg.where.c) IN x.k = "num" /\ Cmp(cfg.where.op, x.v, cfg.where.lit))
-\* expected outcome for stream row r: <<present, table row or empty record>>
-Expected(r) ==
-  LET m == Matches(r) IN
-  IF m # {} THEN LET t == tbl[CHOOSE i \in m : TRUE] IN <<WherePass(t), t>>
-  ELSE IF cfg.kind = "left" THEN <<"where" \notin DOMAIN cfg, [x \in {} |-> Null]>>      \* NULL table columns; a WHERE on them is not true
-  ELSE <<FALSE, [x \in {} |-> Null]>>
-Open(r) == HasNullKey(SKey(r))
+WherePass(r) == "where" \notin DOMAIN cfg \/
+                (LET x == Col(Joined(cfg.where.j, r), cfg.where.c) IN x.k = "num" /\ Cmp(cfg.where.op, x.v, cfg.where.lit))
+\* produced iff every INNER join matches and the WHERE (on a joined column) is true
+Present(r) == (\A j \in 1..Len(cfg.joins) : cfg.joins[j].kind = "left" \/ Matches(j, r) # {}) /\ WherePass(r)
+Open(r) == \E j \in 1..Len(cfg.joins) : HasNullKey(SKey(j, r))
 
 RowCode(o, r) ==
-  LET ex == Expected(r) IN
   IF \E i \in 1..Len(cfg.scols) : ~(cfg.scols[i] \in DOMAIN o /\ Same(o[cfg.scols[i]], Col(r, cfg.scols[i]))) THEN "stream_column_wrong"
-  ELSE IF \E i \in 1..Len(cfg.tcols) : ~(cfg.tcols[i].al \in DOMAIN o /\ Same(o[cfg.tcols[i].al], Col(ex[2], cfg.tcols[i].c))) THEN "table_column_wrong"
+  ELSE IF \E j \in 1..Len(cfg.joins) : \E i \in 1..Len(cfg.joins[j].tcols) :
+            LET tc == cfg.joins[j].tcols[i] IN ~(tc.al \in DOMAIN o /\ Same(o[tc.al], Col(Joined(j, r), tc.c))) THEN "table_column_wrong"
   ELSE ""
 
 Reject(code) == /\ PrintT(<<"REJECT", cfg.tr, l, code>>) /\ dead' = TRUE
 Init == l = 1 /\ cfg = [tr |-> -1] /\ tbl = <<>> /\ cur = [x \in {} |-> Null] /\ got = TRUE /\ dead = FALSE
-Pending == ~got /\ ~Open(cur) /\ Expected(cur)[1]
+Pending == ~got /\ ~Open(cur) /\ Present(cur)
 
 Next ==
   /\ l <= Len(Trace) /\ l' = l + 1
   /\ LET e == Trace[l] IN
-     IF e.e = "reset" THEN cfg' = e /\ tbl' = <<>> /\ cur' = [x \in {} |-> Null] /\ got' = TRUE /\ dead' = FALSE
+     IF e.e = "reset" THEN cfg' = e /\ tbl' = [j \in 1..Len(e.joins) |-> <<>>] /\ cur' = [x \in {} |-> Null] /\ got' = TRUE /\ dead' = FALSE
      ELSE IF dead THEN UNCHANGED <<cfg, tbl, cur, got, dead>>
-     ELSE IF e.e = "table" THEN tbl' = Load(<<>>, e.rows) /\ UNCHANGED <<cfg, cur, got, dead>>
+     ELSE IF e.e = "table" THEN tbl' = [tbl EXCEPT ![JoinOf(e.name)] = Load(JoinOf(e.name), <<>>, e.rows)] /\ UNCHANGED <<cfg, cur, got, dead>>
      ELSE IF e.e = "in" THEN
         \* lock-step: the previous row has been processed against the table state of ITS time (checked at its out/ret)
         /\ cur' = e.row /\ got' = FALSE /\ UNCHANGED <<cfg, tbl, dead>>
@@ -61,21 +61,22 @@ Next ==
         LET c == IF Len(e.rows) # 1 THEN "batch_not_single_row"
                  ELSE IF got THEN "duplicate_result"
                  ELSE IF Open(cur) THEN ""
-                 ELSE IF ~Expected(cur)[1] THEN "result_for_row_without_match"
+                 ELSE IF ~Present(cur) THEN "result_for_row_without_match"
                  ELSE RowCode(e.rows[1], cur) IN
         IF c = "" THEN got' = TRUE /\ UNCHANGED <<cfg, tbl, cur, dead>> ELSE Reject(c) /\ UNCHANGED <<cfg, tbl, cur, got>>
      ELSE IF e.e = "ret" THEN
         /\ IF e.panic = 1 THEN Reject("emitsync_panic")
            ELSE IF Open(cur) THEN UNCHANGED dead
-           ELSE IF e.has = 1 /\ ~Expected(cur)[1] THEN Reject("result_for_row_without_match")
-           ELSE IF e.has = 0 /\ Expected(cur)[1] /\ e.err = 0 THEN Reject("matching_row_dropped")
+           ELSE IF e.has = 1 /\ ~Present(cur) THEN Reject("result_for_row_without_match")
+           ELSE IF e.has = 0 /\ Present(cur) /\ e.err = 0 THEN Reject("matching_row_dropped")
            ELSE IF e.has = 1 /\ RowCode(e.row, cur) # "" THEN Reject(RowCode(e.row, cur))
            ELSE UNCHANGED dead
         /\ got' = TRUE /\ UNCHANGED <<cfg, tbl, cur>>
      ELSE IF e.e \in {"upsert", "delete", "quiesce"} THEN
         \* a row processed BEFORE the change must already have produced its result (lock-step): otherwise it was lost
         /\ IF Pending THEN Reject("matching_row_dropped") ELSE UNCHANGED dead
-        /\ tbl' = IF e.e = "upsert" THEN Upsert(e.row) ELSE IF e.e = "delete" THEN Delete(e.key) ELSE tbl
+        /\ tbl' = IF e.e = "upsert" THEN [tbl EXCEPT ![JoinOf(e.table)] = UpsertIn(JoinOf(e.table), @, e.row)]
+                  ELSE IF e.e = "delete" THEN [tbl EXCEPT ![JoinOf(e.table)] = DeleteIn(JoinOf(e.table), @, e.key)] ELSE tbl
         /\ got' = TRUE /\ UNCHANGED <<cfg, cur>>
      ELSE IF e.e \in {"execerr", "panic"} THEN Reject("engine_" \o e.e) /\ UNCHANGED <<cfg, tbl, cur, got>>
      ELSE UNCHANGED <<cfg, tbl, cur, got, dead>>
